@@ -208,4 +208,20 @@ PROPS = {
             {"name": "histories", "test": "TestProp_C15", "kind": "rapid", "checks_quick": 300, "checks_thorough": 10000, "shards": 6},
         ],
     },
+    "C04": {
+        "manifest": {
+            "text": "C01 histories plus disturbance episodes (process restart = new DB object, IPC stop/start = same object, run-time reset of local state) with generated application activity while litestream is down: writes, in-place updates, checkpoints of every mode, WAL restart shorter/equal/longer than the old cursor, closing the last connection, replacing the database by an older copy or by a restore of an earlier TXID, deleting the meta directory; after the first acknowledged sync following each episode: R1 page oracle, replica position = database position, pre-episode replica files unchanged",
+            "note": "crash (kill) episodes are C03's; shape keys use harness-side observations only (who was down, missed commits, salts, lengths of WAL generations)",
+            "technique": "stateful property-based testing (rapid) with fault episodes and an independent page-level oracle",
+        },
+        "binary": "props",
+        "level": "exploration",
+        "rule": ("C01 histories with 1-2 (thorough: up to 4) disturbance episodes; each episode = {restart, reopen, reset-runtime} x a down-time sub-history of 1-6 ops over "
+                 "{application writes incl. in-place updates, walrestart(mode, relation to old cursor, in-place or insert), closeall, replace-old, replace-restore, "
+                 "rm-meta, reset-offline}. Non-trivial = an episode missed at least one commit that modified an existing page; distinct = hash of (config, abstracted ops)."),
+        "assumptions": ["file replica client only", "litestream never runs concurrently with the down-time sub-history (that is what 'down' means)"],
+        "runs": [
+            {"name": "histories", "test": "TestProp_C04", "kind": "rapid", "checks_quick": 500, "checks_thorough": 20000, "shards": 6},
+        ],
+    },
 }
